@@ -20,12 +20,13 @@ import (
 func TestMain(m *testing.M) { vfx.Main(m) }
 
 type Ev struct {
-	AtMs int
-	Kind string // crash | restart | leave | update | part | heal
-	Node int    `json:",omitempty"`
-	Mask int    `json:",omitempty"` // partition: bit i set = node i on side A
-	Asym bool   `json:",omitempty"` // only A->B is blocked
-	Host bool   `json:",omitempty"` // crash: host down (dials hang) instead of refused
+	AtMs    int
+	Kind    string // crash | restart | leave | update | part | heal
+	Node    int    `json:",omitempty"`
+	Mask    int    `json:",omitempty"` // partition: bit i set = node i on side A
+	Asym    bool   `json:",omitempty"` // only A->B is blocked
+	Host    bool   `json:",omitempty"` // crash: host down (dials hang) instead of refused
+	Unreach bool   `json:",omitempty"` // crash: host down and packet writes towards it fail at the sender
 }
 
 type Plan struct {
@@ -70,6 +71,7 @@ func genPlan(t *rapid.T) Plan {
 		}
 		if e.Kind == "crash" {
 			e.Host = rapid.Bool().Draw(t, "host")
+			e.Unreach = rapid.IntRange(0, 3).Draw(t, "unreach") == 0
 		}
 		p.Events = append(p.Events, e)
 	}
@@ -153,7 +155,12 @@ func run(pl Plan) (res vfx.Result) {
 		switch e.Kind {
 		case "crash":
 			if nd.Running && !nd.Left { // a node in the middle of leaving is stopped by its own leave sequence
-				c.Crash(nd, e.Host)
+				if e.Unreach {
+					c.CrashUnreachable(nd)
+					labels["crash-unreachable"] = true
+				} else {
+					c.Crash(nd, e.Host)
+				}
 				labels["crash"] = true
 				logf("%v crash n%d host=%v", c.Net.Now(), e.Node, e.Host)
 			}
